@@ -32,6 +32,11 @@ pub fn catalogue(kind: Kind, seed: u64) -> BTreeMap<&'static str, Vec<Op>> {
                 Op::Repeat(o, _) => *o,
                 o => o,
             };
+            // the directed histories repeat catalogue ops 255..257 times and 65536 times: keep the
+            // rare giant strings (generated for the random programs) out of them
+            if matches!(&op, Op::RhctIsa(n) if *n > 300) || matches!(&op, Op::RimtPlat { name_len, .. } if *name_len > 300) {
+                continue;
+            }
             let v = out.entry(op.label()).or_default();
             if v.len() < 3 {
                 v.push(op);
